@@ -154,9 +154,8 @@ class ImageFormation(HoloPyObject):
         flattened_schema = flat(schema)  # now either point or flat
         point_or_flat = self._is_detector_view_point_or_flat(flattened_schema)
 
-        coords = {
-            point_or_flat: flattened_schema.coords[point_or_flat],
-            vector: ['x', 'y', 'z']}
+        coords = self._get_detector_coords(flattened_schema, point_or_flat)
+        coords[vector] = ['x', 'y', 'z']
         scattered_field = xr.DataArray(
             scattered_field, dims=[point_or_flat, vector], coords=coords,
             attrs=schema.attrs)
@@ -168,7 +167,7 @@ class ImageFormation(HoloPyObject):
         point_or_flat = self._is_detector_view_point_or_flat(flattened_schema)
         dims = [point_or_flat, 'E_out', 'E_in']
 
-        coords = {point_or_flat: flattened_schema.coords[point_or_flat]}
+        coords = self._get_detector_coords(flattened_schema, point_or_flat)
         coords.update({
             'r': (point_or_flat, r_theta_phi[0]),
             'theta': (point_or_flat, r_theta_phi[1]),
@@ -184,6 +183,18 @@ class ImageFormation(HoloPyObject):
         packed = xr.DataArray(
             scat_matrs, dims=dims, coords=coords, attrs=schema.attrs)
         return packed
+
+    @classmethod
+    def _get_detector_coords(cls, flattened_schema, point_or_flat):
+        coords = {point_or_flat: flattened_schema.coords[point_or_flat]}
+        if point_or_flat == 'point':
+            # the positions of detector points are non-index coordinates
+            # along 'point', which xarray does not carry along with
+            # coords['point']; keep them so results stay on the detector
+            coords.update({
+                key: val for key, val in flattened_schema.coords.items()
+                if val.dims == ('point',)})
+        return coords
 
     @classmethod
     def _is_detector_view_point_or_flat(cls, detector_view):
